@@ -42,6 +42,20 @@ STATEMENTS = [
     ("operand-types", "let bad: u16 = w17a;"),
     ("operand-types", "let bad: bool = w17a;"),
     ("operand-types", "let bad = [w17a, w17b];"),
+    # a number without a suffix next to values that are not numbers
+    ("operand-types", "let bad = [1, w17t, false];"),
+    ("operand-types", "let bad = [-1, w17p];"),
+    ("operand-types", "let bad = [w17t, 1];"),
+    ("operand-types", "let bad = [1, w17s];"),
+    ("operand-types", "let bad = 1 == w17t;"),
+    ("operand-types", "let bad = w17t & 1;"),
+    ("operand-types", "let bad = 1 | w17t;"),
+    ("operand-types", "let bad = w17p == (1, 2);"),
+    ("branch-types", "let bad = if w17t { 1 } else { w17t };"),
+    ("branch-types", "let bad = match w17a { 0u8 => 1, _ => w17t };"),
+    ("argument-types", "let bad = h17(1, 2);"),
+    ("field-types", "let bad = S17 { a: 1, b: 2 };"),
+    ("field-types", "let bad = E17::C(1, 2);"),
     ("operand-types", "let bad = w17arr[w17a];"),
     ("operand-types", "let bad = w17arr[w17t];"),
     ("operand-types", "let bad = w17a[0usize];"),
